@@ -60,6 +60,7 @@ fn dispatch(op: &str, args: &[Sexp]) -> String {
         "dep.generic" => crate::props::c17::op_generic(args),
         "dep.raw" => crate::props::c17::op_raw(args),
         "dep.tetris" => crate::props::c17::op_tetris(args),
+        "dep.tetrisraw" => crate::props::c17::op_tetrisraw(args),
         "dep.gds" => crate::props::c17::op_gds(args),
         _ => "bad-op".into(),
     }
